@@ -93,8 +93,14 @@ func contractedCallees(w *World, fn *ssa.Function, seen map[*ssa.Function]bool, 
 func cone(w *World, prop string) []string {
 	set := map[string]bool{}
 	var work []string
+	hasStep := false
+	for _, cl := range stepClauses {
+		if relevant(cl, prop) && len(cl.Props) > 0 {
+			hasStep = true
+		}
+	}
 	for k, c := range w.contracts {
-		if contractMentions(c, prop) || prop == "C20" {
+		if contractMentions(c, prop) || prop == "C20" || prop == "C18" || (hasStep && strings.HasPrefix(k, "keeper.msgServer.")) {
 			set[k] = true
 			work = append(work, k)
 		}
@@ -274,6 +280,9 @@ func runProperty(w *World, prop, tier string, timeout int) *propResult {
 	}
 	for k, v := range ex.unmodelled {
 		res.Unmodelled[k] = v
+	}
+	for k, v := range ex.extra {
+		res.Extra[k] = v
 	}
 	return res
 }
@@ -462,6 +471,51 @@ func reportLoadFailure(prop, tier string, seed int, err error) int {
 
 // specialObligations adds property-specific obligations that are not clause-shaped (filled in per property).
 func specialObligations(w *World, ex *Exec, prop string) {
+	if prop == "C18" {
+		c18Obligations(w, ex)
+	}
+	if prop == "C17" {
+		// every part of the stored state must be covered by a (proved) postcondition of ExportGenesis and of
+		// InitGenesis; a part that is not has no genesis field, so an export -> import loses it
+		for _, fnKey := range []string{"cctp.ExportGenesis", "cctp.InitGenesis"} {
+			c := w.contracts[fnKey]
+			text := ""
+			if c != nil {
+				for _, cl := range c.byKind("ensures") {
+					text += cl.Text + "\n"
+				}
+			}
+			parts := map[string][]string{
+				"owner": {"st.owner."}, "pendingOwner": {"st.pendingOwner."}, "attesterManager": {"st.attesterManager."}, "pauser": {"st.pauser."},
+				"tokenController": {"st.tokenController."}, "bmPaused": {"st.bmPaused."}, "srPaused": {"st.srPaused."}, "maxBody": {"st.maxBody."},
+				"nextNonce": {"st.nextNonce."}, "threshold": {"st.threshold."}, "attesters": {"stAttesters()", "st.attesters."},
+				"burnLimits": {"stLimits()", "st.burnLimits."}, "tokenPairs": {"stPairs()", "st.tokenPairs."}, "usedNonces": {"stNonces()", "st.usedNonces."},
+				"messengers": {"stMessengers()", "st.messengers."},
+			}
+			var names []string
+			for n := range parts {
+				names = append(names, n)
+			}
+			sort.Strings(names)
+			for _, n := range names {
+				covered := false
+				for _, pat := range parts[n] {
+					if strings.Contains(text, pat) {
+						covered = true
+					}
+				}
+				o := &Obligation{Name: fmt.Sprintf("lemma.C17.roundtrip[%s]@%s", n, fnKey), Kind: "lemma", Props: propSet([]string{"C17"}), Fn: fnKey, Goal: Bool(covered),
+					Note: "state part " + n + " is covered by a proved postcondition of " + fnKey}
+				if covered {
+					o.Res = SolverResult{Status: "unsat", Solver: "syntactic"}
+				} else {
+					o.Res = SolverResult{Status: "sat", Solver: "syntactic"}
+					o.Note = "state part " + n + " has no genesis field: " + fnKey + " has no postcondition about it, so export followed by import loses it"
+				}
+				ex.obls = append(ex.obls, o)
+			}
+		}
+	}
 	// every MsgServer method must be under contract: a new transaction type cannot slip past the frame lemmas
 	switch prop {
 	case "C02", "C04", "C05", "C07", "C11", "C12", "C13", "C15":
